@@ -49,6 +49,28 @@ impl Identity for NId {
     }
 }
 
+/// Identity made of single-byte fields (serde emits these one byte at a
+/// time, unlike varints / strings): an IPv4-style address.
+#[derive(Clone, Copy, Debug, PartialEq, Eq, Hash, PartialOrd, Ord, Serialize, Deserialize)]
+pub struct BId {
+    pub ip: [u8; 4],
+    pub port: u16,
+    pub tag: u8,
+    pub flag: bool,
+}
+impl Identity for BId {
+    type Addr = ([u8; 4], u16);
+    fn renew(&self) -> Option<Self> {
+        Some(BId { tag: self.tag.checked_add(1)?, ..*self })
+    }
+    fn addr(&self) -> ([u8; 4], u16) {
+        (self.ip, self.port)
+    }
+    fn win_addr_conflict(&self, o: &Self) -> bool {
+        self.tag > o.tag
+    }
+}
+
 /// Independent decoding of a wire format, for the grammar parser.
 pub trait Wire<T>: Clone + Send + Sync {
     fn name(&self) -> &'static str;
